@@ -136,7 +136,12 @@ func Generate(r *rng.R, c *GenConfig) *Scenario {
 		if c.Goexit && r.Chance(1, 3) {
 			sc.Gs[g] = append(sc.Gs[g], Op{K: "goexit", D: c.DeepGoexit && r.Bool(), R: [2]int{-1, -1}, S: [2][2]int{{-1, 0}, {-1, 0}}})
 		} else if c.Panic && r.Chance(1, 4) {
-			sc.Gs[g] = append(sc.Gs[g], Op{K: "panic", R: [2]int{-1, -1}, S: [2][2]int{{-1, 0}, {-1, 0}}})
+			sc.Gs[g] = append(sc.Gs[g], Op{K: "panic", R: [2]int{-1, -1}, S: [2][2]int{{-1, 0}, {-1, 0}}, X: c.Goexit && r.Chance(1, 3)})
+		} else if n := len(sc.Gs[g]); c.Goexit && n > 0 && r.Chance(1, 4) {
+			// the last operation runs in a deferred call during Goexit
+			if k := sc.Gs[g][n-1].K; k != "spawn" && k != "range" {
+				sc.Gs[g][n-1].X = true
+			}
 		}
 	}
 	// callbacks
@@ -162,6 +167,9 @@ func Generate(r *rng.R, c *GenConfig) *Scenario {
 				op = c.genOp(r, nch, &uniq)
 			}
 			cb = Callback{Kind: "chanop", Op: &op, Recover: r.Bool()}
+			if !cb.Recover && r.Chance(1, 3) {
+				cb.Deferred = true
+			}
 		}
 		sc.Cbs = append(sc.Cbs, cb)
 	}
@@ -186,6 +194,10 @@ func (sc *Scenario) Features() map[string]bool {
 		}
 		if op.K == "goexit" && op.D {
 			f["goexit_deep"] = true
+		}
+		if op.X {
+			f["op_in_deferred_call_during_goexit"] = true
+			f["op_in_deferred_call_during_goexit:"+op.K] = true
 		}
 		if op.K == "sel" {
 			n := 0
@@ -227,6 +239,11 @@ func (sc *Scenario) Normalise() {
 	for g := range sc.Gs {
 		if sc.Gs[g] == nil {
 			sc.Gs[g] = []Op{}
+		}
+		for i := range sc.Gs[g] {
+			if i != len(sc.Gs[g])-1 { // shrinking may have removed the operations behind it
+				sc.Gs[g][i].X = false
+			}
 		}
 	}
 }
@@ -283,6 +300,9 @@ func (sc *Scenario) Validate() error {
 					return fmt.Errorf("%s must be the last operation of a non-main goroutine", op.K)
 				}
 			}
+			if op.X && (g == 0 || i != len(sc.Gs[g])-1 || op.K == "goexit" || op.K == "spawn" || op.K == "range") {
+				return fmt.Errorf("an operation run by a deferred call during Goexit must be the last one of a non-main goroutine")
+			}
 		}
 	}
 	for i := range sc.Cbs {
@@ -296,6 +316,9 @@ func (sc *Scenario) Validate() error {
 		case "chanop":
 			if cb.Op == nil {
 				return fmt.Errorf("chanop callback without op")
+			}
+			if cb.Deferred && cb.Recover {
+				return fmt.Errorf("a chanop callback is either recovering or deferred")
 			}
 			if err := chkOp(cb.Op); err != nil {
 				return err
